@@ -24,9 +24,10 @@ func init() {
 		Run: runC25,
 		Controls: []Control{
 			{Name: "register-leaks-lock-at-end-of-life", File: "routingtable/client_manager.go", Old: "\tif c.endOfLife {\n\t\tc.mu.Unlock()\n\t\treturn\n\t}\n\n\tc.clients[client] = opt", New: "\tif c.endOfLife {\n\t\treturn\n\t}\n\n\tc.clients[client] = opt", Expect: "lock-released-on-every-exit"},
+			{Name: "refresh-callback-locks-again", File: "routingtable/adjRIBOut/adj_rib_out.go", Old: "func (a *AdjRIBOut) removePathsForPrefix(pfx *bnet.Prefix) bool {\n\tr := a.rt.Get(pfx)\n", New: "func (a *AdjRIBOut) removePathsForPrefix(pfx *bnet.Prefix) bool {\n\ta.mu.Lock()\n\tr := a.rt.Get(pfx)\n\ta.mu.Unlock()\n", Expect: "no-reentry-through-callback"},
 			{Name: "stop-sends-under-list-lock", File: "protocols/bgp/server/peer.go", Old: "\tp.fsmsMu.Unlock()\n\n\tfor _, fsm := range fsms {\n\t\tfsm.eventCh <- ManualStop\n\t}\n", New: "\tfor _, fsm := range fsms {\n\t\tfsm.eventCh <- ManualStop\n\t}\n\tp.fsmsMu.Unlock()\n", Expect: "no-blocking-send-under-needed-lock"},
 			{Name: "sender-reacquires-queue-lock-before-releasing-write-lock", File: "protocols/bgp/server/update_sender.go", Old: "\t\t\tu.sendMu.Unlock()\n\t\t\tu.toSendMu.Lock()\n", New: "\t\t\tu.toSendMu.Lock()\n\t\t\tu.sendMu.Unlock()\n", Expect: "lock-order-acyclic"},
-			{Name: "locrib-recursive-read-lock", File: "routingtable/locRIB/loc_rib.go", Old: "\troutes := a.rt.Dump()\n\tfor _, r := range routes {\n\t\tn := uint(0)", New: "\troutes := a.Dump()\n\tfor _, r := range routes {\n\t\tn := uint(0)", Expect: "no-reacquire-on-same-instance"},
+			{Name: "locrib-recursive-read-lock", File: "routingtable/locRIB/loc_rib.go", Old: "\troutes := a.rt.Dump()\n\tfor idx, r := range routes {", New: "\troutes := a.Dump()\n\tfor idx, r := range routes {", Expect: "no-reacquire-on-same-instance"},
 		},
 	})
 }
@@ -107,6 +108,114 @@ func lockRules(c *core.Ctx, scope func(*core.Fn) bool, floorFns int) {
 	if len(seen) == 0 {
 		c.Hold("no-reacquire-on-same-instance", "calls on the own receiver under its lock", token.NoPos, "none re-acquires the lock")
 	}
+
+	// (d2) re-entry through a callback: a method hands its own receiver to a callee while holding the receiver's lock,
+	// and what the callee can reach includes a method of the same type that takes that lock on its receiver
+	reentry := 0
+	for _, f := range lp.Fns {
+		ls := lp.Sets[f]
+		ro := core.RecvObj(f)
+		if ls == nil || ro == nil {
+			continue
+		}
+		for _, cs := range lp.CallSites(f) {
+			passesSelf := false
+			for _, a := range cs.Call.Args {
+				if id, ok := core.Unparen(a).(*ast.Ident); ok && f.Pkg.TypesInfo.ObjectOf(id) == ro {
+					passesSelf = true
+				}
+			}
+			if !passesSelf {
+				continue
+			}
+			for h := range ls.MayAt(cs.Call) {
+				hc := lp.KeyClass[f][h]
+				if hc == nil || !strings.HasPrefix(h, ro.Name()+".") {
+					continue
+				}
+				class := core.ClassKey2(hc)
+				reentry++
+				var bad *core.Fn
+				selfType := core.RecvName(f.Obj)
+				// methods of the receiver's type invoked on the handed-over object inside the callee (following the
+				// parameter when it is passed on), then calls on the own receiver from there
+				var onSelf func(m *core.Fn, seen map[*core.Fn]bool)
+				onSelf = func(m *core.Fn, seen map[*core.Fn]bool) {
+					if seen[m] || bad != nil {
+						return
+					}
+					seen[m] = true
+					mr := core.RecvObj(m)
+					core.InspectNoLit(m.Decl.Body, func(n ast.Node) bool {
+						call, ok := n.(*ast.CallExpr)
+						if !ok {
+							return true
+						}
+						if op, isOp := core.LockOpOf(m, call); isOp {
+							if op.Acquire && core.ClassKey2(op.Class) == class && mr != nil && op.Base == mr.Name() {
+								bad = m
+							}
+							return true
+						}
+						if se, isSel := call.Fun.(*ast.SelectorExpr); isSel {
+							if id, isId := se.X.(*ast.Ident); isId && mr != nil && m.Pkg.TypesInfo.ObjectOf(id) == mr {
+								if h := lp.P.FnOf(core.Callee(m.Pkg, call)); h != nil && h.Decl.Body != nil {
+									onSelf(h, seen)
+								}
+							}
+						}
+						return true
+					})
+				}
+				var follow func(g *core.Fn, idx int, depth int)
+				follow = func(g *core.Fn, idx int, depth int) {
+					po := core.ParamObj(g, idx)
+					if po == nil || depth > 3 || bad != nil {
+						return
+					}
+					core.InspectNoLit(g.Decl.Body, func(n ast.Node) bool {
+						call, ok := n.(*ast.CallExpr)
+						if !ok {
+							return true
+						}
+						if se, isSel := call.Fun.(*ast.SelectorExpr); isSel {
+							if id, isId := se.X.(*ast.Ident); isId && g.Pkg.TypesInfo.ObjectOf(id) == po {
+								// method of the handed-over object's dynamic type
+								for _, m := range lp.P.MethodsOf(strings.TrimPrefix(f.Pkg.PkgPath, core.Mod+"/"), selfType) {
+									if m.Decl.Name.Name == se.Sel.Name && m.Decl.Body != nil {
+										onSelf(m, map[*core.Fn]bool{})
+									}
+								}
+							}
+						}
+						for i, a := range call.Args {
+							if id, isId := core.Unparen(a).(*ast.Ident); isId && g.Pkg.TypesInfo.ObjectOf(id) == po {
+								if h := lp.P.FnOf(core.Callee(g.Pkg, call)); h != nil && h.Decl.Body != nil {
+									follow(h, i, depth+1)
+								}
+							}
+						}
+						return true
+					})
+				}
+				for i, a := range cs.Call.Args {
+					if id, ok := core.Unparen(a).(*ast.Ident); ok && f.Pkg.TypesInfo.ObjectOf(id) == ro {
+						for _, g := range cs.Callees {
+							follow(g, i, 0)
+						}
+					}
+				}
+				construct := fmt.Sprintf("%s hands itself to %s with %s held", f.Name(), strings.Join(shortAll([]string{cs.Callees[0].Name()}), ""), short(class))
+				if bad != nil {
+					c.Fail("no-reentry-through-callback", construct, cs.Call.Pos(),
+						"the callee calls back into the object it was given, and the call-back path reaches "+bad.Name()+", which takes "+short(class)+" on its receiver — the lock the original caller still holds: the goroutine blocks on itself")
+				} else {
+					c.Hold("no-reentry-through-callback", construct, cs.Call.Pos(), "no method reachable through the callback takes the lock again")
+				}
+			}
+		}
+	}
+	c.Check(reentry >= 1, "no-reentry-through-callback", "calls that pass the locked receiver to a callee", token.NoPos, "none found: the rule matches nothing (AdjRIBOut.ReplaceFilterChain → LocRIB.RefreshClient(a) was the confirmed instance)")
 
 	// (c) blocking send under a lock the receiver needs
 	blockingSends(c, lp)
